@@ -95,9 +95,15 @@ type result struct {
 
 // response of the idx-th call: distinct per call, two header keys, multi-valued header, binary body
 func makeResp(idx int) (map[string][]string, []byte) {
+	// keys as servers spell them, not as net/http canonicalises them (Intel's PCS sends TCB-Info-Issuer-Chain), keys that
+	// differ only in case, an empty value list: "unmodified" means the very map content the wrapped getter returned
 	h := map[string][]string{
-		"X-Call":       {strconv.Itoa(idx)},
-		"Content-Type": {"application/json", "charset=utf-8"},
+		"X-Call":                {strconv.Itoa(idx)},
+		"Content-Type":          {"application/json", "charset=utf-8"},
+		"TCB-Info-Issuer-Chain": {"-----BEGIN%20CERTIFICATE-----" + strconv.Itoa(idx)},
+		"x-trace":               {"lower"},
+		"X-Trace":               {"canonical"},
+		"sgx-pck-crl-issuer-chain": {},
 	}
 	b := []byte(fmt.Sprintf("{\"call\":%d,\"pad\":\"\x00\xff%s\"}", idx, strings.Repeat("z", idx%5)))
 	return h, b
@@ -531,6 +537,7 @@ func TestC20(t *testing.T) {
 	} else {
 		e.random(500)
 	}
+	e.defaults()
 	r.Exhaust = true
 	r.Note("grid", "Timeout{0,1s,7s,8s,2m} x Max{1s,3s,4s,30s,5m} x call duration{0,1s,Max} x {fail for ever, k failures then success for k = 0..attempts+1}; Max{0,-1s} x the same timeouts x duration{0,1s,250ms} x {for ever, k in 0,1,2,3,5,9} (F13)")
 	r.Note("random", "seeded random scripts (1-10 entries, last repeats), random Timeout (incl. <=0) and Max (1/7 <= 0), half of them in whole seconds to provoke timer/deadline ties")
@@ -538,4 +545,30 @@ func TestC20(t *testing.T) {
 	if err := r.Close(); err != nil {
 		t.Fatal(err)
 	}
+}
+
+
+// defaults: trust.DefaultHTTPSGetter() is a fresh getter with the documented configuration on every call — changing one
+// caller's instance must not reconfigure anybody else's (harness-only).
+func (e *emitter) defaults() {
+	obs, fail := "fresh", ""
+	g1, ok1 := trust.DefaultHTTPSGetter().(*trust.RetryHTTPSGetter)
+	if !ok1 {
+		obs, fail = "other-type", "DefaultHTTPSGetter is not the retrying getter"
+	} else {
+		wantT, wantM := g1.Timeout, g1.MaxRetryDelay
+		g1.Timeout, g1.MaxRetryDelay, g1.Getter = time.Nanosecond, -1, nil
+		g2, ok2 := trust.DefaultHTTPSGetter().(*trust.RetryHTTPSGetter)
+		switch {
+		case !ok2:
+			obs, fail = "other-type", "DefaultHTTPSGetter is not the retrying getter"
+		case g1 == g2:
+			obs, fail = "shared", "two calls of DefaultHTTPSGetter return the same instance: one caller's configuration change reconfigures every user of the default"
+		case g2.Timeout != wantT || g2.MaxRetryDelay != wantM || g2.Getter == nil:
+			obs, fail = "reconfigured", fmt.Sprintf("a later DefaultHTTPSGetter carries Timeout=%v MaxRetryDelay=%v after another caller changed its own instance (default %v / %v)", g2.Timeout, g2.MaxRetryDelay, wantT, wantM)
+		case wantT != 2*time.Minute || wantM != 30*time.Second:
+			obs, fail = "other-defaults", fmt.Sprintf("default configuration is Timeout=%v MaxRetryDelay=%v, documented 2m / 30s", wantT, wantM)
+		}
+	}
+	e.r.Emit("# C20.defaults", obs, fail, "defaults", true, "defaults")
 }
